@@ -8,7 +8,7 @@ open LolHtml LolHtml.Model
 variable {κ : Type}
 
 section
-variable {env : Env κ} {inpS inpW : Bytes} {δ : Nat} {K : Nat → κ → κ → Prop}
+variable {env : Env κ} {inpS inpW : Bytes} {δ : Nat} {K : Nat → κ → κ → Prop} {Loc : κ → Nat → Nat → TextType → Prop}
 
 theorem ScanRel.weaken' {np : Nat} {ab ab' : Ab} {ss sw : ScanRegs} (h : ScanRel δ ab np ss sw)
     (hP : ab'.P = true → ab.P = true) (hSt : ab'.St = true → ab.St = true) (hSn : ab'.Sn = true → ab.Sn = true) :
@@ -74,10 +74,10 @@ theorem localName_sh (F : Frame inpS inpW δ) {r : Range} {h : Nat} {n : LocalNa
     rw [if_neg he] at hn
     exact hn
 
-theorem scanEmitHint_sim (F : Frame inpS inpW δ) (hops : OpsSim env.ops inpS inpW δ K) {ab' : Ab}
+theorem scanEmitHint_sim (F : Frame inpS inpW δ) (hops : OpsSim env.ops inpS inpW δ K Loc) {ab' : Ab}
     {cs cw : Common} {ss sw : ScanRegs} {xs xw : Ctx κ} (tsS : Nat) (ie : Bool)
     (hc : CRel δ 0 cs cw) (h1 : 1 ≤ cs.nextPos) (hs : ScanRel δ ab' cs.nextPos ss sw)
-    (htns : sw.tagNameStart = ss.tagNameStart + δ)
+    (htns : sw.tagNameStart = ss.tagNameStart + δ) (htsn : ss.tagStart = none)
     (hq1 : ss.chSeqStart = none) (hq2 : sw.chSeqStart = none)
     (hsim : xw.sim = xs.sim) (hpc : xs.prevConsumed = xw.prevConsumed + δ) (hK : K 0 xs.sink xw.sink) :
     ActSim δ K ab' true (scanEmitHint env inpS cs ss xs tsS ie) (scanEmitHint env inpW cw sw xw (tsS + δ) ie) := by
@@ -98,32 +98,37 @@ theorem scanEmitHint_sim (F : Frame inpS inpW δ) (hops : OpsSim env.ops inpS in
       · exact { hc with lastStartTagNameHash := rfl }
     have hnp' : (if ie = true then cs else { cs with lastStartTagNameHash := ss.tagNameHash }).nextPos = cs.nextPos := by
       split <;> rfl
-    have hres : (if ie = true then env.ops.endTagHint name xw.sink else env.ops.startTagHint name xw.sim.currentNs xw.sink).2
-          = (if ie = true then env.ops.endTagHint name xs.sink else env.ops.startTagHint name xs.sim.currentNs xs.sink).2 ∧
-        K 0 (if ie = true then env.ops.endTagHint name xs.sink else env.ops.startTagHint name xs.sim.currentNs xs.sink).1
-          (if ie = true then env.ops.endTagHint name xw.sink else env.ops.startTagHint name xw.sim.currentNs xw.sink).1 := by
+    have hres : OpRel (K 0) (if ie = true then env.ops.endTagHint name xs.sink else env.ops.startTagHint name xs.sim.currentNs xs.sink)
+        (if ie = true then env.ops.endTagHint name xw.sink else env.ops.startTagHint name xw.sim.currentNs xw.sink) := by
       split
       · exact hops.endHint name _ _ hK
       · rw [hsim]; exact hops.startHint name _ _ _ hK
-    obtain ⟨hr2, hK'⟩ := hres
-    rw [hr2]
-    generalize (if ie = true then env.ops.endTagHint name xs.sink else env.ops.startTagHint name xs.sim.currentNs xs.sink).2 = r
-    match r with
-    | .error e => exact Or.inr ⟨rfl, (fun hh => by rcases hh with hh | hh <;> cases hh), fun _ _ hh => by cases hh⟩
-    | .ok .scan =>
-      refine Or.inr ⟨trivial, fun _ => ⟨⟨hc', ?_, hsim, hpc⟩, hK'⟩, fun _ _ hh => by cases hh⟩
-      show 0 = 0 ∧ ScanRel δ ab' _ ss sw ∧ SeqRel δ _ .none ss.chSeqStart sw.chSeqStart
-      rw [hnp']
-      exact ⟨rfl, hs, hq1, hq2⟩
-    | .ok .lex =>
-      refine Or.inr ⟨⟨rfl, ?_⟩, (fun hh => by rcases hh with hh | hh <;> cases hh), fun _ _ _ => ⟨ab', ⟨hc', ?_, hsim, hpc⟩, hK'⟩⟩
-      · refine ⟨hc'.cdataAllowed, hc'.lastTextType, hc'.lastStartTagNameHash, rfl, ?_⟩
-        simp only [mkBookmark, scanTakeFeedbackDirective, hs.pend]
-      · dsimp only
+    rcases hres with hpan | ⟨hr2, hK'⟩
+    · left
+      refine ⟨rfl, ?_⟩
+      revert hpan
+      generalize (if ie = true then env.ops.endTagHint name xs.sink else env.ops.startTagHint name xs.sim.currentNs xs.sink).2 = r
+      intro hpan
+      match r, hpan with
+      | .error (.panic _), _ => exact trivial
+    · rw [hr2]
+      generalize (if ie = true then env.ops.endTagHint name xs.sink else env.ops.startTagHint name xs.sim.currentNs xs.sink).2 = r at hK' ⊢
+      match r, hK' with
+      | .error e, _ => exact Or.inr ⟨rfl, (fun hh => by rcases hh with hh | hh <;> cases hh), fun _ _ hh => by cases hh⟩
+      | .ok .scan, hK' =>
+        refine Or.inr ⟨trivial, fun _ => ⟨⟨hc', ?_, hsim, hpc⟩, hK' ⟨_, rfl⟩⟩, fun _ _ hh => by cases hh⟩
+        show 0 = 0 ∧ ScanRel δ ab' _ ss sw ∧ SeqRel δ _ .none ss.chSeqStart sw.chSeqStart
         rw [hnp']
-        exact ⟨rfl, { hs with pend := rfl, hash := rfl }, hq1, hq2⟩
+        exact ⟨rfl, hs, hq1, hq2⟩
+      | .ok .lex, hK' =>
+        refine Or.inr ⟨⟨rfl, ?_⟩, (fun hh => by rcases hh with hh | hh <;> cases hh), fun _ _ _ => ⟨ab', ⟨hc', ?_, hsim, hpc⟩, hK' ⟨_, rfl⟩, htsn⟩⟩
+        · refine ⟨hc'.cdataAllowed, hc'.lastTextType, hc'.lastStartTagNameHash, rfl, ?_⟩
+          simp only [mkBookmark, scanTakeFeedbackDirective, hs.pend]
+        · dsimp only
+          rw [hnp']
+          exact ⟨rfl, { hs with pend := rfl, hash := rfl }, hq1, hq2⟩
 
-theorem scanFinishTagName_sim (F : Frame inpS inpW δ) (hops : OpsSim env.ops inpS inpW δ K) {ab ab' : Ab}
+theorem scanFinishTagName_sim (F : Frame inpS inpW δ) (hops : OpsSim env.ops inpS inpW δ K Loc) {ab ab' : Ab}
     {cs cw : Common} {ss sw : ScanRegs} {xs xw : Ctx κ} (h : ScanPre δ K ab cs cw ss sw xs xw)
     (hP : ab.P = true) (hSn : ab.Sn = true) (hP' : ab'.P = true → ab.P = true) (hSt' : ab'.St = false)
     (hSn' : ab'.Sn = false) :
@@ -164,24 +169,24 @@ theorem scanFinishTagName_sim (F : Frame inpS inpW δ) (hops : OpsSim env.ops in
       | switchTextType t =>
         simp only [scanApplyFeedback]
         exact scanEmitHint_sim (ab' := ab') (xs := { xs with sim := sim' }) (xw := { xw with sim := sim' }) F hops ts
-          ss.isInEndTag h.c (by omega) (hs' (fun _ => some t)) htns h.seqS h.seqW hx h.pc h.k
+          ss.isInEndTag h.c (by omega) (hs' (fun _ => some t)) htns rfl h.seqS h.seqW hx h.pc h.k
       | setAllowCdata b =>
         simp only [scanApplyFeedback]
         exact scanEmitHint_sim (ab' := ab') (xs := { xs with sim := sim' }) (xw := { xw with sim := sim' }) F hops ts
           ss.isInEndTag (cs := { cs with cdataAllowed := b }) (cw := { cw with cdataAllowed := b })
-          { h.c with cdataAllowed := rfl } (by show 1 ≤ cs.nextPos; omega) (hs' id) htns h.seqS h.seqW hx h.pc h.k
+          { h.c with cdataAllowed := rfl } (by show 1 ≤ cs.nextPos; omega) (hs' id) htns rfl h.seqS h.seqW hx h.pc h.k
       | requestLexeme k =>
         simp only [scanApplyFeedback]
-        refine Or.inr ⟨⟨rfl, ?_⟩, (fun hh => by rcases hh with hh | hh <;> cases hh), fun _ _ _ => ⟨ab', ⟨h.c, ?_, hx, h.pc⟩, h.k⟩⟩
+        refine Or.inr ⟨⟨rfl, ?_⟩, (fun hh => by rcases hh with hh | hh <;> cases hh), fun _ _ _ => ⟨ab', ⟨h.c, ?_, hx, h.pc⟩, h.k, rfl⟩⟩
         · exact ⟨h.c.cdataAllowed, h.c.lastTextType, h.c.lastStartTagNameHash, rfl, rfl⟩
         · exact ⟨rfl, hs' id, h.seqS, h.seqW⟩
       | none =>
         simp only [scanApplyFeedback]
         exact scanEmitHint_sim (ab' := ab') (xs := { xs with sim := sim' }) (xw := { xw with sim := sim' }) F hops ts
-          ss.isInEndTag h.c (by omega) (hs' id) htns h.seqS h.seqW hx h.pc h.k
+          ss.isInEndTag h.c (by omega) (hs' id) htns rfl h.seqS h.seqW hx h.pc h.k
 
 /-- **All tag scanner actions.** -/
-theorem scanAct_sim (F : Frame inpS inpW δ) (hops : OpsSim env.ops inpS inpW δ K) (a : ActName)
+theorem scanAct_sim (F : Frame inpS inpW δ) (hops : OpsSim env.ops inpS inpW δ K Loc) (a : ActName)
     {ab ab' : Ab} (habs : absAct a ab = some ab') {cs cw : Common} {ss sw : ScanRegs} {xs xw : Ctx κ}
     (h : ScanPre δ K ab cs cw ss sw xs xw)
     (hin : readsInp a = true → (cs.nextPos ≤ inpS.length ∨ Closed inpS inpW δ)) :
